@@ -9,6 +9,9 @@ def pipeline_cfgs(rep, what):
     if what == 'values':        # C04 C08 C09: every instance alone + pairs
         cfgs.append(pp.gen_cfg('single', MaxSteps=4 if th else 3, MaxIllegal=1))
         cfgs.append(pp.gen_cfg('pairs', ChainSetName='"pairs"' if th else '"pairs-sample"', SampleN=0 if th else 160, MaxSteps=3))
+    elif what == 'hot':         # C09: the source emits with a context of its own (a hot source), not derived from the subscription context
+        cfgs.append(pp.gen_cfg('single-hot', MaxSteps=4 if th else 3, MaxIllegal=1, SrcBaseName='"hot"'))
+        cfgs.append(pp.gen_cfg('pairs-hot', ChainSetName='"pairs"' if th else '"pairs-sample"', SampleN=0 if th else 120, MaxSteps=3, SrcBaseName='"hot"'))
     elif what == 'illegal':     # C01: illegal suffixes after the terminal
         cfgs.append(pp.gen_cfg('single-illegal', MaxSteps=5 if th else 4, MaxIllegal=2))
         cfgs.append(pp.gen_cfg('pairs-illegal', ChainSetName='"pairs"' if th else '"pairs-sample"', SampleN=0 if th else 100, MaxSteps=3, MaxIllegal=2))
